@@ -133,7 +133,15 @@ def R2_one_delta(run):
         run.check("R2", "same-delta@" + short, all(is_param(x, "liquidity_delta") for x in d), "the four updates do not all receive liquidity_delta: %s" % [sh(x, 40) for x in d],
                   loc=fn.loc(), detail="liquidity_delta x4")
         lo, up = found["lower"], found["upper"]
-        ok = is_param(lo[0], "tick_lower") and is_param(lo[1], "tick_lower_index") and is_param(up[0], "tick_upper") and is_param(up[1], "tick_upper_index")
+        def index_of(x, name):
+            """The parameter of that name, or the position's own bound read in place (position.tick_lower_index / its getter)."""
+            x = strip(x)
+            if is_param(x, name):
+                return True
+            if x[0] == "field" and x[2] == name:
+                return is_param(strip(x[1]), "position")
+            return x[0] == "call" and x[1].rsplit("::", 1)[-1] == name and len(x[2]) == 1 and is_param(strip(x[2][0]), "position")
+        ok = is_param(lo[0], "tick_lower") and index_of(lo[1], "tick_lower_index") and is_param(up[0], "tick_upper") and index_of(up[1], "tick_upper_index")
         run.check("R2", "tick-sides@" + short, ok, "lower/upper tick updates are not given (tick_lower, tick_lower_index) / (tick_upper, tick_upper_index): %s / %s" % (
             [sh(x, 30) for x in lo[:2]], [sh(x, 30) for x in up[:2]]), loc=fn.loc(), detail="lower: (tick_lower, tick_lower_index, false); upper: (tick_upper, tick_upper_index, true)")
 
